@@ -494,7 +494,7 @@ pub fn run(ctx: &mut Ctx) {
         "a missing second output is measured, not failed; malformed classes are decided on the effective input (prf if present, otherwise prfAlreadyHashed)".into(),
         "without the capability only 'no output, no secret' is asserted".into(),
     ];
-    let n = ctx.tier.pick(6_000u32, 150_000u32);
+    let n = ctx.tier.pick(6_000u32, 3_000_000u32);
     match search(ctx, 9, n, strategy(), check) {
         Search::Pass => {}
         Search::Fail(c, msg) => ctx.violation("ceremonies", json!(c), &msg),
